@@ -80,6 +80,28 @@ def build_trace(tier):
                 series.append(dict(id=f"{a}|c={c}|passes={P}", arr=a, c4=c4, c=c, passes=P,
                                    n4=(n4s if c4 >= 0 else [0] * len(ntus)), ntuM=[int(round(x * M)) for x in ntus], err=err or "", effM=effM, effT=effT,
                                    backM=backM, backT=backT, cf=cf, reach=reach, effBack=effBack))
+    # the finite-row correlations of the both-unmixed cross-flow arrangement (optional arguments Rows and Cmin_Phase of HX_Eff):
+    # relational clauses only (range, monotone in NTU, not above counter flow, label-form independence), capacity ratios > 0
+    for rows_ in (1, 2, 3, 4, 6):
+        for phase in ("Air", "Steam"):
+            for c4 in (1, 2, 3, 4):
+                c = c4 / 4.0
+                member = HX.CrFUU
+                effM, effT, cf, err = [], [], [], None
+                for n4 in n4s:
+                    ntu = n4 / 4.0
+                    try:
+                        em = HX_Eff(member, ntu, c, 1, rows_, phase)
+                        et = HX_Eff(member.value, ntu, c, 1, rows_, phase)
+                        cfv = HX_Eff(HX.CF, ntu, c, 1)
+                    except Exception as e:
+                        err = err or f"NTU={ntu} c={c} Rows={rows_} Cmin_Phase={phase}: {e!r}"[:200]
+                        em = et = -7.0; cfv = 1.0
+                    for lst, v in ((effM, em), (effT, et), (cf, cfv)):
+                        lst.append(int(round(v * M)) if math.isfinite(v) else -9 * M)
+                z = [0] * len(n4s)
+                series.append(dict(id=f"CrFUU|rows={rows_}|{phase}|c={c}", arr="CrFUU", c4=-1, c=c, passes=1, n4=z, ntuM=[int(round(n4 / 4.0 * M)) for n4 in n4s],
+                                   err=err or "", effM=effM, effT=effT, backM=z, backT=z, cf=cf, reach=[False] * len(n4s), effBack=z, rows=rows_))
     lm = []
     ds = [-5, 0, 1, 2, 3, 5, 8, 13, 20, 21, 34, 50]
     for d1 in ds:
@@ -112,7 +134,8 @@ def build_trace(tier):
 
 
 def kf_crfuu(v, f):
-    return v.case.get("arr") == "CrFUU" and v.clause in ("C20.not_above_counterflow",)
+    # the infinite-row series CrossflowUnmixedEff1 only (no Rows argument, or more than four rows)
+    return v.case.get("arr") == "CrFUU" and v.clause in ("C20.not_above_counterflow",) and v.case.get("rows", 0) not in (1, 2, 3, 4)
 
 
 def check(prop, tier, run: Run, replay_case=None):
